@@ -270,6 +270,30 @@ def account(cases, recs, hellos, out):
                 seen.append(d)
 
 
+def sharing_account(recs, cat, out):
+    """Machinery check + evidence: entries of mode "shared" really are DAGs when built, and
+    the copies that come out of a pickle still are (an observation, not judged)."""
+    n = {"built_dag": 0, "built_tree": 0, "unpickled_dag": 0, "other_mode_with_sharing": 0}
+    for r in recs:
+        for e in r["evs"]:
+            if not e.get("ok"):
+                continue
+            if e["a"] == "Build":
+                shared = cat[e["x"] - 1].get("mode") == "shared"
+                if shared and e["sh"] > 0:
+                    n["built_dag"] += 1
+                elif not shared and e["sh"] > 0:
+                    n["other_mode_with_sharing"] += 1      # (the parser may share on its own)
+                else:
+                    n["built_tree"] += 1
+            elif e["a"] == "Unpickle" and e["sh"] > 0:
+                n["unpickled_dag"] += 1
+    if len(recs) > 100 and not n["built_dag"]:
+        raise kit.MachineryError("C17: no catalogue entry of mode 'shared' came out as a DAG")
+    prev = out.extra.get("sharing", {})
+    out.extra["sharing"] = {k: n[k] + prev.get(k, 0) for k in n}
+
+
 def run(tier, seed, out):
     wd = kit.fresh_workdir("C17")
     # the negative control is independent of the rest: its JVM runs alongside
@@ -302,6 +326,7 @@ def run(tier, seed, out):
     negpool.shutdown()
     classify(verdicts, recs, cases, out)
     account(cases, recs, hellos, out)
+    sharing_account(recs, head["cat"], out)
     pick = [r for r in recs if r["np"] == 3][:1] + recs[:: max(1, len(recs) // 2)][:2]
     out.samples = [{"schedule": {k: r[k] for k in ("ta", "tb", "proto", "wrap", "cfg", "np")},
                     "catalogue_entry": head["cat"][r["ta"] - 1],
@@ -314,7 +339,9 @@ def run(tier, seed, out):
                 "reordering independent commands of different processes, each completed by a closing "
                 "audit; thorough adds -simulate random histories over 3 processes.  A case is one "
                 "schedule; non-trivial = a pickle is unpickled in another process; distinct by "
-                "canonical JSON of (instantiation, history)")
+                "canonical JSON of (instantiation, history).  Catalogue entries come in building "
+                "modes (tree / DAG with shared subexpression objects / parsed from text / defaults "
+                "omitted / numpy constants) that are the same structure")
     out.exhaustive = True
     out.extra["exhaustive_schedules"] = exhaustive_cases
     out.extra["catalogue_entries"] = len(head["cat"])
